@@ -369,8 +369,20 @@ def check_os_choices(ctx, chk):
     if len(br) == 1:
         F = cn.conj(tuple(c for c in br[0].pc if c[0] not in ("inloop", "fact")))
         txt = f_show(F)
-        sem = "None in " in txt and "EXISTS[G.os]" in txt and txt.count("!") >= 2
-        ok_exit = ok_exit or sem
+        # exactly: the list contains None, or every declared OS occurs in it (conditions that
+        # only select the branch, e.g. the number of escalations, aside)
+        from sa.canon import f_atoms, f_subst
+        none_atoms = [a for a in f_atoms(F) if a.startswith("None in ")]
+        sem = False
+        if len(none_atoms) == 1:
+            OC = none_atoms[0][len("None in "):]
+            want = f_or([A(f"None in {OC}"),
+                         f_not(("exists", "G.os", f_not(A(f"each(G.os) in {OC}"))))])
+            branch = [a for a in f_atoms(F) if "num_privesc" in a and "in " not in a]
+            F2 = f_subst(F, lambda a: ("true",) if a in branch else None)
+            F3 = f_subst(F, lambda a: ("false",) if a in branch else None)
+            sem = bool(f_equiv(F2, want) or f_equiv(F3, want))
+        ok_exit = sem
     whiles = [n for n in ast.walk(m.node) if isinstance(n, ast.While)
               and isinstance(n.test, ast.Constant) and n.test.value is True]
     if not br or not whiles:
